@@ -465,6 +465,11 @@ func replayOther(r *h.Run, typ string, raw json.RawMessage) {
 		if json.Unmarshal(raw, &sc) == nil {
 			runGated(r, sc)
 		}
+	case "oslinks":
+		var sc linkScenario
+		if json.Unmarshal(raw, &sc) == nil {
+			runLinks(r, sc)
+		}
 	case "zipcut":
 		var sc zipcutScenario
 		if json.Unmarshal(raw, &sc) == nil {
